@@ -79,7 +79,7 @@ PROPS = {
     "C16": dict(
         lean_modules=["Liftbridge.Props.C16", "Liftbridge.Props.C16Seq"],
         gen_sources=LOG_SOURCES + ["server/partition.go:partition.messageProcessingLoop", "server/api.go:apiServer.ensurePublishPreconditions"],
-        runs=[dict(go_pkg="./server/commitlog", test="TestVerifC16"), dict(go_pkg="./server", test="TestVerifC16Server"), dict(go_pkg="./server", test="TestVerifC16Restore")],
+        runs=[dict(go_pkg="./server/commitlog", test="TestVerifC16"), dict(go_pkg="./server", test="TestVerifC16Server"), dict(go_pkg="./server", test="TestVerifC16Restore"), dict(go_pkg="./server", test="TestVerifC16Subjects")],
         level="proof",
         assumptions=LOG_ASSUME + ["concurrent publishers are serialised by the partition leader's single message-processing loop with batch size 1 (extracted fact); their interleavings are the arrival orders",
                                   "Model/Sequencer.lean: the loop may cut the arrival sequence into any non-empty batches of at most batchLimit messages (timing is not modelled: every cut is covered); a failed Append is answered to msgBatch[0] only; the server-level run checks this against the Append calls recorded on a running server with a batching window",
@@ -244,7 +244,8 @@ PROPS = {
         lean_modules=["Liftbridge.Props.C02", "Liftbridge.Props.GoEpochCache", "Liftbridge.Props.GoPartition"],
         gen_sources=["server/partition.go", "server/replicator.go", "server/metadata.go", "server/commitlog/commitlog.go", "server/commitlog/leader_epoch_cache.go"],
         runs=[dict(go_pkg="./server/commitlog", test="TestVerifC02"), dict(go_pkg="./server", test="TestVerifC02ISR"),
-              dict(go_pkg="./server", test="TestVerifC02Cluster"), dict(go_pkg="./server", test="TestVerifC02Reconcile"), dict(go_pkg="./server", test="TestVerifC02IsrPersist")],
+              dict(go_pkg="./server", test="TestVerifC02Cluster"), dict(go_pkg="./server", test="TestVerifC02Reconcile"), dict(go_pkg="./server", test="TestVerifC02IsrPersist"),
+              dict(go_pkg="./server", test="TestVerifC02LateResponse")],
         level="proof",
         assumptions=LOG_ASSUME + PROTO_ASSUME + [
             "ISR membership: the two timers of a replicator are two flags per replica on the leader ('seen' / 'caught up' within max lag time: elapsed time below the bound while set, above it once "
